@@ -15,6 +15,11 @@ use serde_json::json;
 use std::sync::atomic::{AtomicU64, Ordering};
 
 fn hll_len_ok(ctx: &Ctx, s: &HllSketch, what: &str, n: u64) {
+    let lg_k = s.lg_config_k();
+    hll_len_ok_with(ctx, s, what, n, &|| json!({"kind":"stream","family":"hll","lg_k":lg_k,"stream":what,"n":n}));
+}
+
+fn hll_len_ok_with(ctx: &Ctx, s: &HllSketch, what: &str, n: u64, replay: &dyn Fn() -> serde_json::Value) {
     let st = s.verif_state();
     let len = s.serialize().len();
     let c = st.table.iter().filter(|&&x| x != 0).count();
@@ -24,13 +29,35 @@ fn hll_len_ok(ctx: &Ctx, s: &HllSketch, what: &str, n: u64) {
         _ => 40 + spec_hll::reg_bytes(st.tgt, st.lg_k) + 4 * st.aux.as_ref().map(|a| a.len()).unwrap_or(0),
     };
     if len != want {
-        ctx.violation(&format!("hll{}.size.stream.mode{}", st.tgt, st.mode), &format!("{what}: after {n} items the image is {len} bytes, mode/lg_k/aux dictate {want}"), json!({"kind":"stream","family":"hll","lg_k":st.lg_k,"tgt":st.tgt,"stream":what,"n":n}));
+        ctx.violation(&format!("hll{}.size.stream.mode{}", st.tgt, st.mode), &format!("{what}: after {n} items the image is {len} bytes, mode/lg_k/aux dictate {want}"), replay());
+    }
+    // the sparse modes are bounded by the configuration too: a list is promoted when its 8
+    // slots are used, a set when it is more than 3/4 full at 2^(lg_k-3) slots
+    let cap = match st.mode {
+        0 => 7,
+        1 => 3 * (1usize << (st.lg_k.max(8) - 3)) / 4,
+        _ => usize::MAX,
+    };
+    if c > cap {
+        ctx.violation(&format!("hll.size.sparse_mode_overgrown.mode{}", st.mode), &format!("{what}: lg_k={} sketch still in {} mode with {c} coupons (promotion is due above {cap}); the image of {len} bytes grows with the stream", st.lg_k, if st.mode == 0 { "list" } else { "set" }), replay());
     }
     // absolute bound implied by the configuration alone
     let k = 1usize << st.lg_k;
     let bound = 40 + k + 4 * k; // registers + (never reached) one aux entry per slot
     if len > bound {
-        ctx.violation("hll.size.unbounded", &format!("{what}: image of {len} bytes exceeds any configuration bound"), json!({"kind":"stream","family":"hll","lg_k":st.lg_k,"n":n}));
+        ctx.violation("hll.size.unbounded", &format!("{what}: image of {len} bytes exceeds any configuration bound"), replay());
+    }
+}
+
+/// Observer for the HLL union exploration: every result sketch obeys the size rules.
+fn union_sizes(ctx: &Ctx, s: &crate::c03::UState, mk: &dyn Fn() -> serde_json::Value) {
+    for t in [HllType::Hll4, HllType::Hll6, HllType::Hll8] {
+        match crate::common::catch(|| s.u.to_sketch(t)) {
+            Ok(r) => hll_len_ok_with(ctx, &r, "union result", 0, mk),
+            Err(p) => {
+                ctx.violation(&format!("panic|{}", p.site_key()), &format!("to_sketch panicked: {}", p.message), mk());
+            }
+        }
     }
 }
 
@@ -173,6 +200,7 @@ fn long_runs(ctx: &Ctx) {
 pub fn run(ctx: &Ctx) -> i32 {
     let jobs: Vec<Box<dyn Fn() + Sync + Send>> = vec![
         Box::new(|| crate::c02::explore(ctx, &obs::hll_trio_c12)),
+        Box::new(|| crate::c03::explore(ctx, &union_sizes)),
         Box::new(|| crate::c04::explore(ctx, &|ctx, p, mk| obs::theta_pair_obs(ctx, p, false, true, mk))),
         Box::new(|| crate::c08::explore(ctx, &obs::cm_spec)),
         Box::new(|| crate::c09::explore(ctx, &obs::bloom_spec)),
@@ -185,7 +213,7 @@ pub fn run(ctx: &Ctx) -> i32 {
     let cov = json!({
         "exhaustive": true,
         "bounds": {
-            "observer": "every state of the reduced-bound C02/C04/C07/C08/C09 explorations",
+            "observer": "every state of the reduced-bound C02/C03 (union results, all three target types)/C04/C07/C08/C09 explorations; HLL list/set modes additionally bounded by their promotion sizes (7 coupons, 3/4 of 2^(lg_k-3))",
             "long_runs": format!("4 streams (distinct, 16 repeated, ascending theta hash, ascending HLL value) of 2^{} hashed items: HLL lg_k {{4,8,12{}}} x 3 types, theta lg_k {{5,8,12}} incl. trim, measured at every power-of-two prefix; CPC lg_k 4..={} x 4 seeds at every 1/8-octave prefix (exceedances of max_serialized_bytes counted, must be <= 0.1%)", ctx.tier.pick(18, 22), ctx.tier.pick("", ",21"), ctx.tier.pick(12, 14)),
         },
     });
